@@ -368,7 +368,9 @@ ssize_t _whawty_read_data(int sock, const void* data, size_t len, int timeout)
     }
 
     ssize_t nread = read(sock, (void*)(data + offset), len - offset);
-    if(nread < 0 || (nread == 0 && errno != EINTR)) {
+        // read() == 0 means EOF (or nothing was requested). errno is not touched by a successful read() so
+        // it must not be consulted here: with a stale EINTR this loop would spin forever on a closed socket.
+    if(nread <= 0) {
       return offset;
     }
     offset += nread;
